@@ -71,7 +71,7 @@ UNITS += [
         /*@add_raw_err_keeps_pack*/ r is Err ==> final(self).file.all@ == old(self).file.all@ && final(self).index == old(self).index,
         /*@add_raw_type_frame*/ final(self).blob_type == old(self).blob_type,
 """,
-         hints=[("before", "self.count += 1;", """        proof {
+         hints=[("after", ".add(*id", """        proof {
             let b0 = old(self).index.blobs@;
             let nb = self.index.blobs@[b0.len() as int];
             assert(self.index.blobs@ == b0.push(nb));
@@ -164,8 +164,8 @@ UNITS += [
 HE = dict(wrap_open="impl HeaderEntry {", wrap_close="}")
 UNITS += [
     Unit(name="HeaderEntry", file=PF, kind="type", anchor="pub enum HeaderEntry {", attrs="#[derive(Clone, Copy)]", rewrites=[R_ATTRS]),
-    Unit(name="header_entry_consts", file=PF, kind="const", anchor="const ENTRY_LEN: u32 = 37;", **HE),
-    Unit(name="header_entry_consts2", file=PF, kind="const", anchor="pub(crate) const ENTRY_LEN_COMPRESSED: u32 = 41;", **HE),
+    Unit(name="header_entry_consts", file=PF, kind="const", anchor="const ENTRY_LEN: u32 =", **HE),
+    Unit(name="header_entry_consts2", file=PF, kind="const", anchor="pub(crate) const ENTRY_LEN_COMPRESSED: u32 =", **HE),
     Unit(name="he_from_blob", file=PF, anchor="fn from_blob(blob: &IndexBlob) -> Self", within="impl HeaderEntry {", ret_name="r", **HE,
          functions=["repofile::packfile::HeaderEntry::from_blob"],
          rewrites=[Rw("*blob.id", "blob.id.vinner()", why="Deref BlobId -> Id"),
